@@ -90,6 +90,9 @@ def instantiations(tier, seed):
     dup = cfg.SC(dict(F.V("x"), str=True), dict(F.V("x"), str=True), dict(F.V("y"), str=True), cfg.cXor(F.V("p"), F.V("q"), id="X", default=["p"]))
     out.append({"model": dup, "added": [plain(0)], "clash": None, "allow_invalid": True})
     out.append({"model": dup, "added": [plain(0), F.N("Imply", F.V("x"), F.N("All", F.V("n1"), F.V("n6"), id="Q1"), id="N1")], "clash": None, "allow_invalid": True})
+    strn = cfg.SC(dict(F.V("n"), str=True), cfg.cXor(F.V("p"), F.V("q"), id="X", default=["p"]))
+    out.append({"model": strn, "added": [F.N("Imply", F.V("p"), F.AL(2, F.V("n", 0, 3), F.V("m"), id="Q1", sign=1), id="N1")], "clash": None, "allow_invalid": True})
+    out.append({"model": strn, "added": [plain(0), F.AL(2, F.V("n", 0, 3), F.V("m"), id="N2", sign=1)], "clash": None, "allow_invalid": True})
     # top-level items: configurators given plain items at the top level
     c = cfg.SC(F.V("a"), F.V("b"), cfg.cXor(F.V("x"), F.V("y"), id="X", default=["x"]))
     out.append({"model": c, "added": [F.N("Any", F.V("n1"), F.V("n2"), id="a")], "clash": "item"})
